@@ -287,9 +287,13 @@ func famC12(rn *Runner) {
 	langs := []string{"en", "EN", "en-US", "en-us", "en-GB", "zh", "zh-TW", "ZH-tw", "zh-Hant", "de", "", "fr", "fr-CA", "x", "x-klingon", "eng", "en-GB-x-priv", "en-GB-x", "e", "zh-", "-", "EN-gb"}
 	for di := 0; di < rn.Scale(10, 150) && !rn.TooMany(); di++ {
 		d := rn.genDoc(rn.Scale(50, 130))
-		env := stdEnv()
+		env := envShuffled(rn, d)
 		g := NewExprGen(rn.R.Fork(), d, env)
-		for _, p := range d.Paths {
+		uo := unorderedOperands(rn)
+		for pi, p := range d.Paths {
+			for k := 0; k < 2; k++ {
+				rn.scalar(d, env, p, call(pick(rn.R, []string{"name", "local-name", "namespace-uri"}), uo[(pi*2+k)%len(uo)]), "name-functions-unordered", "name of the first node in document order, whatever the stored order", true)
+			}
 			for _, f := range []string{"name", "local-name", "namespace-uri"} {
 				rn.scalar(d, env, p, call(f), "name-functions", "name of the context node", true)
 				rn.scalar(d, env, p, call(f, &EPath{Steps: []*Stp{{Axis: pick(rn.R, []string{"ancestor", "ancestor-or-self", "preceding", "preceding-sibling", "parent", "following", "namespace", "attribute"}),
